@@ -40,7 +40,6 @@ import (
 	"github.com/canopy-network/canopy/lib/crypto"
 	"verif/c20util"
 	"verif/core"
-	"verif/node"
 )
 
 const (
@@ -137,7 +136,9 @@ func (s *sim) amount(bal uint64, reserve uint64) uint64 {
 	return 1 + uint64(r.Int63n(int64(lim)))
 }
 
-func (s *sim) bal(st *c20util.State, k crypto.PrivateKeyI) uint64 { return st.Accounts[string(addr(k))] }
+func (s *sim) bal(st *c20util.State, k crypto.PrivateKeyI) uint64 {
+	return st.Accounts[string(addr(k))]
+}
 
 // ---------------------------------------------------------------------------------------------------------------------
 // transaction generators
@@ -1000,13 +1001,70 @@ func eventsOf(r *lib.BlockResult) []string {
 
 // ---------------------------------------------------------------------------------------------------------------------
 
+func newSim(t *testing.T, run *core.Run, name, kind string, scale int, rng *rand.Rand) *sim {
+	return &sim{t: t, run: run, name: name, kind: kind, scale: scale, rng: rng, keyOf: map[string]crypto.PrivateKeyI{}, exempt: map[string]bool{},
+		nestQCs: map[uint64]*lib.QuorumCertificate{}, rootQCs: map[uint64]*lib.QuorumCertificate{}, ops: map[string][]string{},
+		executed: map[string]uint64{}, settled: map[string]bool{}, fellBack: map[string]bool{}}
+}
+
+// open builds the two chains and takes the first scans.
+func (s *sim) open(o c20util.Opts) error {
+	e, err := c20util.New(o)
+	if err != nil {
+		return err
+	}
+	s.e = e
+	for _, k := range e.Users {
+		s.keyOf[string(addr(k))] = k
+	}
+	for _, k := range e.Vals {
+		s.exempt[string(addr(k))] = true
+	}
+	if s.rootSt, err = c20util.Scan(e.RootNode().C.FSM.Store()); err != nil {
+		return err
+	}
+	s.nestSt, err = c20util.Scan(e.NestNode().C.FSM.Store())
+	return err
+}
+
+// runFallbackScenario is a fixed scenario: one order of the root chain is executed by the nested chain; from then on the
+// nested chain's certificates never reach the root, so the nested chain runs its liveness fallback (repeatedly). The
+// same oracles judge every block.
+func runFallbackScenario(t *testing.T, run *core.Run, name string) {
+	s := newSim(t, run, name, "scenario", 1, run.Rand(name))
+	if err := s.open(c20util.Opts{Vals: 3, Users: 2, WithNested: true,
+		RootPools: map[uint64]uint64{nestedID + fsm.LiquidityPoolAddend: 1_000_000},
+		NestPools: map[uint64]uint64{rootID + fsm.LiquidityPoolAddend: 2_000_000}}); err != nil {
+		t.Fatalf("%s: %v", name, err)
+	}
+	defer s.e.Close()
+	a := s.e.Users[0]
+	deliver := true
+	for tick := 0; tick < core.Pick(30, 45) && !s.failed; tick++ {
+		var txs [][]byte
+		if deliver && len(s.queue) > 0 {
+			txs, s.queue = append(txs, s.queue[0]), s.queue[1:]
+		}
+		if tick == 0 {
+			txs = append(txs, s.e.Sign(a, &fsm.MessageDexLimitOrder{ChainId: nestedID, AmountForSale: 100_000, RequestedAmount: 1, Address: addr(a)}, rootID, 0, s.e.RootNode().Height(), ""))
+			s.note("root h%d dex-order to=%d who=%x sell=100000 want=1", s.e.RootNode().Height(), nestedID, addr(a)[:4])
+		}
+		if !s.stepRoot(txs) || !s.stepNested(nil) {
+			return
+		}
+		if l := s.nestSt.Locked[rootID]; deliver && l != nil && len(l.Receipts) > 0 {
+			deliver = false
+			s.queue = nil
+			s.note("driver: the nested chain executed the root's batch (receipts %v); from now on its certificates do not reach the root", l.Receipts)
+		}
+	}
+}
+
 func runCase(t *testing.T, run *core.Run, name string, idx int) {
 	rng := run.Rand(name)
 	kind := []string{"book", "dex"}[idx%2]
 	scale := (idx / 2) % 3
-	s := &sim{t: t, run: run, name: name, kind: kind, scale: scale, rng: rng, keyOf: map[string]crypto.PrivateKeyI{}, exempt: map[string]bool{},
-		nestQCs: map[uint64]*lib.QuorumCertificate{}, rootQCs: map[uint64]*lib.QuorumCertificate{}, ops: map[string][]string{},
-		executed: map[string]uint64{}, settled: map[string]bool{}, fellBack: map[string]bool{}}
+	s := newSim(t, run, name, kind, scale, rng)
 	// reserves from 1 to 2^62, balances up to 2^61 (everything together stays below 2^64)
 	var rootPool2, rootPool3, nestPool1 uint64
 	funds := func(i int) uint64 { return 5_000_000_000 }
@@ -1025,26 +1083,13 @@ func runCase(t *testing.T, run *core.Run, name string, idx int) {
 			return 5_000_000_000
 		}
 	}
-	e, err := c20util.New(c20util.Opts{Vals: 3, Users: 6, WithNested: true, UserFunds: funds,
+	if err := s.open(c20util.Opts{Vals: 3, Users: 6, WithNested: true, UserFunds: funds,
 		RootPools: map[uint64]uint64{nestedID + fsm.LiquidityPoolAddend: rootPool2, ghostID + fsm.LiquidityPoolAddend: rootPool3},
-		NestPools: map[uint64]uint64{rootID + fsm.LiquidityPoolAddend: nestPool1}})
-	if err != nil {
+		NestPools: map[uint64]uint64{rootID + fsm.LiquidityPoolAddend: nestPool1}}); err != nil {
 		t.Fatalf("%s: %v", name, err)
 	}
-	defer e.Close()
-	s.e = e
-	for _, k := range e.Users {
-		s.keyOf[string(addr(k))] = k
-	}
-	for _, k := range e.Vals {
-		s.exempt[string(addr(k))] = true
-	}
-	if s.rootSt, err = c20util.Scan(e.RootNode().C.FSM.Store()); err != nil {
-		t.Fatal(err)
-	}
-	if s.nestSt, err = c20util.Scan(e.NestNode().C.FSM.Store()); err != nil {
-		t.Fatal(err)
-	}
+	defer s.e.Close()
+	e := s.e
 	s.note("%s workload=%s scale=%d root_pool(2)=%d root_pool(3)=%d nested_pool(1)=%d", name, kind, scale, rootPool2, rootPool3, nestPool1)
 	ticks := core.Pick(24, 110)
 	withhold := 0 // > 0: the nested chain's certificates do not reach the root (the liveness fallback must take over)
@@ -1130,7 +1175,7 @@ func head(x []string, n int) []string {
 func TestCheck(t *testing.T) {
 	run := core.Start(t, "C20", "exploration",
 		"distinct = (a) operation sequences (C create, E+/E-/E= edit, L lock, R reset, then D deleted-to-seller or X closed-to-buyer) of completed sell-order life cycles with at least two operations, per kind of committee (own chain / real nested chain / harness-signed), and (b) shapes of counter-chain DEX batches actually processed (orders / withdrawals / deposits of the locked and the remote batch as 0,1,many; settled; swaps succeeded; fallback); blocks in which nothing of this happens add nothing")
-	run.MinDistinct = core.Pick(25, 60)
+	run.MinDistinct = core.Pick(60, 150)
 	// canopy's own knobs (package variables): a locked batch is re-sent every 2nd block and the nested chain falls back after 12
 	lib.LivenessFallbackBlocks, lib.TriggerModuloBlocks = 12, 2
 	n := core.Pick(16, 128)
@@ -1140,7 +1185,13 @@ func TestCheck(t *testing.T) {
 		debug.SetGCPercent(50)
 		runtime.GOMAXPROCS(4)
 	}
-	run.Sharded(n, func(i int) {
+	run.Sharded(n+1, func(i int) {
+		if i == n {
+			if name := "scenario-fallback-after-execution"; run.Want(name) {
+				runFallbackScenario(t, run, name)
+			}
+			return
+		}
 		name := fmt.Sprintf("case-%03d", i)
 		if !run.Want(name) {
 			return
@@ -1150,7 +1201,6 @@ func TestCheck(t *testing.T) {
 	run.Assume("committee rewards only move the accounts / stakes of validators: validator accounts are exempt from the exact balance attribution (all user, buyer and fresh accounts are attributed exactly)")
 	run.Assume("a block holds only transactions that succeeded (canopy drops failing transactions from proposals); their fees and the amounts of sends / DEX escrows are taken from the transaction contents")
 	run.Assume("lib.LivenessFallbackBlocks=12 and lib.TriggerModuloBlocks=2 (production: 60 / 5) so that fallbacks and re-sent batches occur inside short runs")
-	run.Assume(fmt.Sprintf("engine: %s with one node per chain; the proposer validates its own proposal before the commit as the BFT does", "verif/node"))
-	_ = node.NetworkID
+	run.Assume("engine verif/node with one node per chain; the proposer validates its own proposal before the commit as the BFT does; block header times are wall clock (canopy takes time.Now()), so the hash-keyed pseudo-random execution order inside a DEX batch can differ between two runs of the same case")
 	run.Finish()
 }
